@@ -143,3 +143,9 @@ Fixpoint split_aux (s : string) (cur : string) : list string :=
   | String c r => if Ascii.eqb c "." then cur :: split_aux r "" else split_aux r (cur ++ String c EmptyString)
   end.
 Definition split (s : string) : list string := split_aux s "".
+
+(* the file as it is: one dataset per leaf NAMED by the joined path; loading splits the names again *)
+Definition save_named (kvs : list (string * value)) : list (string * stored) :=
+  map (fun ps => (join (fst ps), snd ps)) (save kvs).
+Definition load_named (datasets : list (string * stored)) : list (string * value) :=
+  load (map (fun ns => (split (fst ns), snd ns)) datasets).
